@@ -210,6 +210,27 @@ every class table, every object, every operand list (no side condition at all). 
 theorem unite_mem (tbl : ClassTable) (o : Obj) (vs : List Ty) :
     mem tbl o (unite vs) = vs.any (fun v => mem tbl o v) := unite_mem' tbl o vs
 
+/-! ### the union accepts its members / the operands (model of `MultiValuedValue.can_assign`: member-wise
+for every number of members — the literal fast path `_get_known_subvals` that the implementation takes
+for unions of ≥ 10 members has no counterpart in the model, the correspondence and the
+accepts-operand search on big unions tie it to these statements) -/
+
+/-- **A union accepts each of its members**, in both modes, whatever the number of members: for every
+class table satisfying the table laws and every member that is well-formed in the weak sense
+`Ty.wfR` (C04: every type accepts itself). -/
+theorem union_accepts_member (tbl : ClassTable) (htbl : tableOk tbl = true) (x : Bool) (ts : List Ty)
+    (m : Ty) (hm : m ∈ ts) (hw : m.wfR tbl = true) : ca tbl x (.union ts) m = true :=
+  union_accepts_member' (laws4_of_tableOk tbl htbl) x ts m hm hw
+
+/-- **Uniting yields a value that accepts each operand** — when no two flattened members of the
+operands are the same dict key (`keyNodup`: nothing is merged, so every member of every operand is
+itself a member of the result) and the flattened members of the operand are weakly well-formed.
+(With merging the statement needs that `can_assign` respects `==` on the right, which is not proved.) -/
+theorem unite_accepts_partial (tbl : ClassTable) (htbl : tableOk tbl = true) (x : Bool) (vs : List Ty)
+    (v : Ty) (hv : v ∈ vs) (hk : keyNodup (vs.flatMap flatten1) = true)
+    (hw : ∀ m ∈ flatten1 v, m.wfR tbl = true) : ca tbl x (unite vs) v = true :=
+  unite_accepts' (laws4_of_tableOk tbl htbl) x vs v hv hk hw
+
 /-! ## 7. semilattice laws -/
 
 /-- **Full statement of commutativity** (false: `unite_comm_unhashable_witness`). -/
